@@ -28,6 +28,14 @@ type SolverCfg struct {
 	Scratch  string
 	AllAgree bool // thorough: wait for every solver and require agreement
 	Models   bool
+	Stagger  time.Duration // delay before the second and third solver join the race (default 1.5 s)
+}
+
+func (c SolverCfg) stagger() time.Duration {
+	if c.Stagger > 0 {
+		return c.Stagger
+	}
+	return 1500 * time.Millisecond
 }
 
 type solverDef struct {
@@ -106,10 +114,25 @@ func Solve(o *Obligation, cfg SolverCfg, id int) Result {
 	if o.unit.strSMT {
 		order = []solverDef{solvers[2], solvers[0], solvers[1]}
 	}
-	for _, s := range order {
+	if o.Cover {
+		// a reachability cover only has to be "not refuted": one solver is asked
+		order = order[:1]
+	}
+	firstDone := make(chan struct{})
+	for k, s := range order {
 		wg.Add(1)
-		go func(s solverDef) {
+		go func(k int, s solverDef) {
 			defer wg.Done()
+			if k > 0 && !cfg.AllAgree {
+				// the first solver answers most queries within a second: the others join the race only after that
+				select {
+				case <-ctx.Done():
+					ch <- ans{s.name, "cancelled", "", 0}
+					return
+				case <-firstDone:
+				case <-time.After(cfg.stagger()):
+				}
+			}
 			t0 := time.Now()
 			c, cn := context.WithTimeout(ctx, cfg.Timeout+2*time.Second)
 			defer cn()
@@ -120,10 +143,16 @@ func Solve(o *Obligation, cfg SolverCfg, id int) Result {
 			cmd.Stderr = &out
 			cmd.Run()
 			ch <- ans{s.name, firstWord(out.String()), out.String(), time.Since(t0).Seconds()}
-		}(s)
+			if k == 0 {
+				close(firstDone)
+			}
+		}(k, s)
 	}
 	go func() { wg.Wait(); close(ch) }()
 	for a := range ch {
+		if a.status == "cancelled" {
+			continue
+		}
 		res.Answers[a.solver] = a.status
 		if a.status == "sat" || a.status == "unsat" {
 			if res.Status == "sat" || res.Status == "unsat" {
